@@ -1,0 +1,24 @@
+//go:build verif
+
+// Contracts for package rsyncwire, checked by /verif/govc. Comments only.
+
+package rsyncwire
+
+//@ func (*rsyncwire.Conn).ReadByte
+//@   modifies rsyncwire.CountingReader.BytesRead
+//@   ensures 0 <= result && result <= 255
+
+//@ func (*rsyncwire.Conn).ReadInt32
+//@   modifies rsyncwire.CountingReader.BytesRead
+
+//@ func (*rsyncwire.Conn).ReadInt64
+//@   modifies rsyncwire.CountingReader.BytesRead
+
+//@ func (*rsyncwire.Conn).WriteByte
+//@   modifies rsyncwire.CountingWriter.BytesWritten
+//@ func (*rsyncwire.Conn).WriteInt32
+//@   modifies rsyncwire.CountingWriter.BytesWritten
+//@ func (*rsyncwire.Conn).WriteInt64
+//@   modifies rsyncwire.CountingWriter.BytesWritten
+//@ func (*rsyncwire.Conn).WriteString
+//@   modifies rsyncwire.CountingWriter.BytesWritten
